@@ -24,6 +24,10 @@ ParameterEvent::ParameterEvent(Parameter* parameter) : parameter_(parameter) {}
 Parameter::Parameter(const std::string& name, double value, std::shared_ptr<ConstraintInterface> constraint, double precision) :
   name_(name), value_(0), precision_(0), constraint_(constraint), listeners_()
 {
+  // The initial value must be checked even when it equals the placeholder
+  // value_ was initialized with (setValue ignores a request equal to the current value).
+  if (constraint_ && !constraint_->isCorrect(value))
+    throw ConstraintException("Parameter::Parameter", this, value);
   setValue(value);
   setPrecision(precision);
 }
